@@ -33,7 +33,9 @@ CONSTANTS
   UdpPolicy,     \* "buffered" (required)  | "direct" (datagram truncated to the offered slice)
   PongPolicy,    \* "cancel_safe" (required) | "inline" (reply and packet live only in the dropped future)
   MaxErr, MaxPending, MaxCancel, MaxTimeout,
-  MaxWrites, WLens
+  MaxWrites, WLens,
+  KeepHist,      \* FALSE in trace validation: the script of steps is not recorded
+  FrameOK(_, _)  \* which (length, class) pairs the peer may produce (TRUE: any)
 
 AllClasses == {"ka", "tiny", "pkt", "bad", "ver9", "verX", "short"}
 AllTransports == {"stream", "udp", "ws"}
@@ -67,7 +69,8 @@ FrameToks(i, n) == [k \in 1..n |-> Tok(i, k)]
 Min2(a, b) == IF a < b THEN a ELSE b
 
 H(a, n, s) == [a |-> a, n |-> n, s |-> s]
-Log(e) == hist' = Append(hist, e)
+LogSeq(es) == hist' = IF KeepHist THEN hist \o es ELSE hist
+Log(e) == LogSeq(<<e>>)
 
 IsStream == cfg.transport = "stream"
 IsUdp    == cfg.transport = "udp"
@@ -105,7 +108,7 @@ PeerDgram(fs) ==
      /\ Len(toks) <= MaxDgram
      /\ net' = Append(net, toks)
   /\ sent' = sent \o fs
-  /\ hist' = hist \o [j \in 1..Len(fs) |-> H(IF j = 1 THEN "dgram" ELSE "dgram+", fs[j].len, fs[j].cls)]
+  /\ LogSeq([j \in 1..Len(fs) |-> H(IF j = 1 THEN "dgram" ELSE "dgram+", fs[j].len, fs[j].cls)])
   /\ UNCHANGED <<cfg, wsq, packed, eof, abuf, rbuf, roff, pc, pending, pongleft, wcur, wleft, wlen, nwrites,
                  out, units, results, nerr, npend, ncancel, ntimeout>>
 
@@ -196,6 +199,15 @@ FillStream(k) ==
   /\ UNCHANGED <<cfg, sent, wsq, packed, eof, abuf, pending, pongleft, wcur, wleft, wlen, nwrites, out, units,
                  results, nerr, npend, ncancel, ntimeout>>
 
+\* trace form: the spare capacity offered by the buffer is an observed input, not predicted
+FillStreamObs(k, offered) ==
+  /\ pc = "fill" /\ IsStream /\ k >= 1 /\ k <= offered /\ Len(net) >= k
+  /\ rbuf' = rbuf \o SubSeq(net, 1, k) /\ roff' = 0 /\ pc' = "loop"
+  /\ net' = SubSeq(net, k + 1, Len(net))
+  /\ Log(H("fill", k, ""))
+  /\ UNCHANGED <<cfg, sent, wsq, packed, eof, abuf, pending, pongleft, wcur, wleft, wlen, nwrites, out, units,
+                 results, nerr, npend, ncancel, ntimeout>>
+
 \* required: recv into a full-size scratch, keep what does not fit in the adaptor buffer
 FillUdpBuffered ==
   /\ pc = "fill" /\ IsUdp /\ UdpPolicy = "buffered"
@@ -259,7 +271,7 @@ FillErr ==
   /\ pc = "fill" /\ nerr < MaxErr
   /\ nerr' = nerr + 1 /\ pc' = "idle"
   /\ results' = Append(results, [t |-> "io_err", id |-> 0])
-  /\ hist' = hist \o <<H("err", 0, ""), H("result", 0, "io_err")>>
+  /\ LogSeq(<<H("err", 0, ""), H("result", 0, "io_err")>>)
   /\ UNCHANGED <<cfg, sent, wsq, packed, net, eof, abuf, rbuf, roff, pending, pongleft, wcur, wleft, wlen, nwrites,
                  out, units, npend, ncancel, ntimeout>>
 
@@ -275,7 +287,7 @@ FillTimeout ==
   /\ pc = "fill" /\ IsTokio /\ ntimeout < MaxTimeout
   /\ ntimeout' = ntimeout + 1 /\ pc' = "idle"
   /\ results' = Append(results, [t |-> "timeout", id |-> 0])
-  /\ hist' = hist \o <<H("timeout", 0, ""), H("result", 0, "timeout")>>
+  /\ LogSeq(<<H("timeout", 0, ""), H("result", 0, "timeout")>>)
   /\ UNCHANGED <<cfg, sent, wsq, packed, net, eof, abuf, rbuf, roff, pending, pongleft, wcur, wleft, wlen, nwrites,
                  out, units, nerr, npend, ncancel>>
 
@@ -288,7 +300,7 @@ PongWrite(k) ==
      THEN \* single_write: one write() call, the result is ignored, the tail is dropped
           /\ pongleft' = 0 /\ pc' = "idle" /\ pending' = 0
           /\ results' = Append(results, [t |-> "pkt", id |-> pending])
-          /\ hist' = hist \o <<H("pongw", k, ""), H("result", pending, "pkt")>>
+          /\ LogSeq(<<H("pongw", k, ""), H("result", pending, "pkt")>>)
      ELSE /\ pongleft' = pongleft - k /\ Log(H("pongw", k, ""))
           /\ UNCHANGED <<pc, pending, results>>
   /\ UNCHANGED <<cfg, sent, wsq, packed, net, eof, abuf, rbuf, roff, wcur, wleft, wlen, nwrites,
@@ -326,7 +338,7 @@ WriteAccept(k) ==
   /\ out' = out \o [j \in 1..k |-> <<"w", wcur, wlen - wleft + j>>]
   /\ units' = IF Atomic THEN Append(units, k) ELSE units
   /\ IF WritePolicy = "single_write" \/ wleft = k
-     THEN /\ wleft' = 0 /\ pc' = "idle" /\ hist' = hist \o <<H("wacc", k, ""), H("wdone", wcur, "")>>
+     THEN /\ wleft' = 0 /\ pc' = "idle" /\ LogSeq(<<H("wacc", k, ""), H("wdone", wcur, "")>>)
      ELSE /\ wleft' = wleft - k /\ Log(H("wacc", k, "")) /\ UNCHANGED pc
   /\ UNCHANGED <<cfg, sent, wsq, packed, net, eof, abuf, rbuf, roff, pending, pongleft, wcur, wlen, nwrites,
                  results, nerr, npend, ncancel, ntimeout>>
@@ -341,9 +353,9 @@ WritePending ==
 Frame(n, c) == [len |-> n, cls |-> c]
 
 Next ==
-  \/ \E n \in Lens, c \in Classes : PeerSend(n, c)
-  \/ \E n \in Lens, c \in Classes : PeerDgram(<<Frame(n, c)>>)
-  \/ \E n1, n2 \in Lens, c1, c2 \in Classes : PeerDgram(<<Frame(n1, c1), Frame(n2, c2)>>)
+  \/ \E n \in Lens, c \in Classes : FrameOK(n, c) /\ PeerSend(n, c)
+  \/ \E n \in Lens, c \in Classes : FrameOK(n, c) /\ PeerDgram(<<Frame(n, c)>>)
+  \/ \E n1, n2 \in Lens, c1, c2 \in Classes : FrameOK(n1, c1) /\ FrameOK(n2, c2) /\ PeerDgram(<<Frame(n1, c1), Frame(n2, c2)>>)
   \/ \E k \in 1..(MaxFrames * 12) : PeerWsPack(k)
   \/ \E kind \in {"text", "ping", "empty"} : PeerWsOther(kind)
   \/ PeerClose
